@@ -409,6 +409,13 @@ def rule_closures_and_names(ctx: Ctx) -> None:
                 x = par[id(x)]
                 if isinstance(x, (ast.If, ast.IfExp)) and any(isinstance(c, ast.Call) and dotted(c.func) == "isinstance" and c.args and norm(c.args[0]) == src.id for c in ast.walk(x.test)):
                     guarded = True
+            if not guarded:
+                from ..flow import guard_facts
+
+                cfg_ = ctx.cfg(f)
+                nd = cfg_.node_containing(src)
+                if nd is not None:
+                    guarded = any(re.search(rf"isinstance\({re.escape(src.id)}\b", t_) for t_, _pol in guard_facts(cfg_, Defs(ast.Module(body=[], type_ignores=[])), nd))
             ctx.add("5-shape", f, it if not isinstance(it, ast.comprehension) else src, guarded, f"`{src.id}` (str | tuple) is iterated only under an isinstance test" if guarded else
                     f"`{src.id}` may be a plain name (str) or a tuple of names; iterating it without an isinstance test walks the CHARACTERS of a name: every bare dims entry longer than one character is dropped from the filtered sweep", key=f"str-iteration {f.name} {src.id}")
     ctx.floor("5-shape.str-or-tuple", n, 1)
